@@ -19,6 +19,9 @@
  *   r ext <o> addref|unref                external reference through the object's vtable
  *   r detach <h> <len>                    library buffer behind handle h: buf->_vptr->detach(buf, len * 8);
  *                                          buffers handed out by detach are numbered n0, n1, .. (no 'r obj' after the first)
+ *   r reserve <h> <n>                     array handle of a library buffer (or empty): mpt_array_reserve(&h, n * 8, element traits)
+ *   r lo new | r lo set <o> | r lo drop   local output (mptplot/history/output_local.c): property "" holds a reference to
+ *                                          its target; set assigns harness metatype o (shown as handle h3)
  *   r end                                 drop every handle, then every external reference of small counters
  * value words: decimal, "max", "max-1"
  */
@@ -30,6 +33,9 @@
 #include "convert.h"
 #include "values.h"
 #include "notify.h"
+#include "object.h"
+#include "output.h"
+#include "history.h"
 
 enum { K_META, K_BUF, K_RBUF, K_RAW };
 #define NOBJ 3
@@ -37,6 +43,7 @@ enum { K_META, K_BUF, K_RBUF, K_RAW };
 
 struct hobj {
 	int kind, used;
+	MPT_INTERFACE(output) out;   /* what makes a harness metatype acceptable as output target */
 	/* harness objects */
 	MPT_INTERFACE(metatype) mt;
 	struct { MPT_STRUCT(buffer) b; uint64_t room[4]; } hb;   /* harness buffer header + room behind it */
@@ -60,6 +67,7 @@ static MPT_STRUCT(buffer) *anon[NANON];
 static int nanon;
 
 static MPT_STRUCT(refcount) counter;
+static MPT_INTERFACE(metatype) *lout;   /* local output, its target is shown as h3 */
 
 /* element tokens finalised / copied in the current op (library buffers) */
 static char elog[4096];
@@ -87,7 +95,19 @@ static struct hobj *of_meta(MPT_INTERFACE(metatype) *mt)
 	for (int i = 0; i < NOBJ; i++) if (&objs[i].mt == mt) return &objs[i];
 	return 0;
 }
-static int hm_conv(MPT_INTERFACE(convertable) *c, MPT_TYPE(type) t, void *p) { (void) c; (void) t; (void) p; return MPT_ERROR(BadType); }
+static ssize_t ho_push(MPT_INTERFACE(output) *o, size_t n, const void *d) { (void) o; (void) d; return n; }
+static int ho_sync(MPT_INTERFACE(output) *o, int t) { (void) o; (void) t; return 0; }
+static int ho_await(MPT_INTERFACE(output) *o, int (*f)(void *, const MPT_STRUCT(message) *), void *p) { (void) o; (void) f; (void) p; return 0; }
+static const MPT_INTERFACE_VPTR(output) ho_ctl = { ho_push, ho_sync, ho_await };
+static int hm_conv(MPT_INTERFACE(convertable) *c, MPT_TYPE(type) t, void *p)
+{
+	struct hobj *o = 0;
+	for (int i = 0; i < NOBJ; i++) if ((void *) &objs[i].mt == (void *) c) o = &objs[i];
+	if (!o) return MPT_ERROR(BadArgument);
+	if (t == MPT_ENUM(TypeMetaPtr)) { if (p) *((void **) p) = &o->mt; return MPT_ENUM(TypeOutputPtr); }
+	if (t == MPT_ENUM(TypeOutputPtr)) { if (p) *((void **) p) = &o->out; return MPT_ENUM(TypeMetaPtr); }
+	return MPT_ERROR(BadType);
+}
 static void hm_unref(MPT_INTERFACE(metatype) *mt)
 {
 	struct hobj *o = of_meta(mt);
@@ -191,6 +211,12 @@ static void result(const char *r, const char *iret)
 		else if (o == 9) printf(" h%d=new", h);
 		else printf(" h%d=%d", h, o);
 	}
+	if (lout) {
+		MPT_INTERFACE(metatype) *t = 0;
+		lout->_vptr->convertable.convert((void *) lout, MPT_ENUM(TypeMetaPtr), &t);
+		int o = obj_of_meta(t);
+		if (o < 0) printf(" h3=-"); else if (o == 9) printf(" h3=new"); else printf(" h3=%d", o);
+	}
 	printf(" el=%s", elog[0] ? elog : "-");
 	printf(" | I ret=%s", iret);
 	/* shared flag of library buffers behind the handles */
@@ -240,6 +266,7 @@ static int handle_empty(int h) { return hnd[h].isarr ? !hnd[h].arr._buf : !hnd[h
 static void finish_script(void)
 {
 	for (int h = 0; h < NH; h++) drop_handle(h);
+	if (lout) { lout->_vptr->unref(lout); lout = 0; }
 	for (int i = 0; i < nobj; i++) {
 		struct hobj *o = &objs[i];
 		if (o->kind == K_META || o->kind == K_BUF) {
@@ -307,6 +334,7 @@ int main(void)
 			if (!strcmp(drv_w[2], "meta") || !strcmp(drv_w[2], "buf")) {
 				o->kind = drv_w[2][0] == 'm' ? K_META : K_BUF;
 				o->mt._vptr = &hm_ctl;
+				o->out._vptr = &ho_ctl;
 				o->hb.b._vptr = &hb_ctl;
 				o->hb.b._content_traits = 0;
 				*((size_t *) &o->hb.b._size) = sizeof(o->hb.room);
@@ -449,6 +477,48 @@ int main(void)
 				hnd[h].arr._buf = n;
 			}
 			result(n ? "ok" : "refused", "0");
+		}
+		else if (!strcmp(op, "reserve") && drv_nw == 4) {
+			int h = parse_idx(drv_w[2], NH), oi;
+			size_t len;
+			MPT_STRUCT(buffer) *b, *n;
+			if (h < 0 || drv_parse_nat(drv_w[3], &len) || len > 64) { puts("bad-op"); continue; }
+			if (!handle_empty(h)) {
+				if (!hnd[h].isarr) { puts("bad-op"); continue; }
+				oi = obj_of_buf(hnd[h].arr._buf);
+				if (oi < 100 && !(oi >= 0 && oi < nobj && objs[oi].kind == K_RBUF)) { puts("bad-op"); continue; }
+			}
+			hnd[h].isarr = 1;
+			b = hnd[h].arr._buf;
+			n = mpt_array_reserve(&hnd[h].arr, len * sizeof(uint64_t), &el_traits);
+			if (n && n != b) {
+				if (nanon >= NANON) { puts("FAULT too many buffers"); return 1; }
+				for (int i = 0; i < nanon; i++) if (anon[i] == n) anon[i] = 0;
+				anon[nanon++] = n;
+			}
+			if (handle_empty(h)) hnd[h].isarr = 0;
+			result(n ? "ok" : "refused", "0");
+		}
+		else if (!strcmp(op, "lo") && drv_nw >= 3) {
+			if (!strcmp(drv_w[2], "new") && drv_nw == 3) {
+				if (lout || !(lout = mpt_output_local())) { puts("bad-op"); continue; }
+				result("ok", "0");
+			}
+			else if (!strcmp(drv_w[2], "set") && drv_nw == 4) {
+				int oi = parse_idx(drv_w[3], nobj), ret;
+				MPT_INTERFACE(object) *obj = 0;
+				if (!lout || oi < 0 || objs[oi].kind != K_META) { puts("bad-op"); continue; }
+				if (lout->_vptr->convertable.convert((void *) lout, MPT_ENUM(TypeObjectPtr), &obj) < 0 || !obj) { puts("FAULT no object"); return 1; }
+				ret = obj->_vptr->set_property(obj, "", (MPT_INTERFACE(convertable) *) &objs[oi].mt);
+				result(ret < 0 ? "refused" : "ok", ret < 0 ? retname(ret, rb, sizeof(rb)) : "0");
+			}
+			else if (!strcmp(drv_w[2], "drop") && drv_nw == 3) {
+				if (!lout) { puts("bad-op"); continue; }
+				lout->_vptr->unref(lout);
+				lout = 0;
+				result("ok", "0");
+			}
+			else puts("bad-op");
 		}
 		else if (!strcmp(op, "end") && drv_nw == 2) {
 			finish_script();
